@@ -209,3 +209,7 @@ pub mod benches {
         group.finish();
     }
 }
+
+#[cfg(kani)]
+#[path = "/verif/units/kani/beatree_ops.rs"]
+mod verif_kani;
